@@ -240,6 +240,26 @@ async fn pmtiles_entry_offset_overflow(_a: &[String]) -> Result<bool> {
 	Ok(false)
 }
 
+// D23: an MBTiles file whose `tiles` table holds a record with an extreme zoom level / column (arbitrary table content, C19):
+// opening must end with a value or an error
+fn mbtiles_extreme_values(a: &[String]) -> Result<bool> {
+	let z: i64 = arg(a, 0); let c0: i64 = arg(a, 1); let c1: i64 = arg(a, 2);
+	let dir = std::env::temp_dir().join(format!("verif_replay_mbtiles_{}", std::process::id()));
+	std::fs::create_dir_all(&dir)?;
+	let path = dir.join("t.mbtiles");
+	let _ = std::fs::remove_file(&path);
+	{
+		let conn = r2d2_sqlite::rusqlite::Connection::open(&path)?;
+		conn.execute_batch("CREATE TABLE metadata (name text, value text); CREATE TABLE tiles (zoom_level integer, tile_column integer, tile_row integer, tile_data blob);
+			INSERT INTO metadata VALUES ('format', 'pbf');")?;
+		conn.execute("INSERT INTO tiles VALUES (?1, ?2, 0, x'00')", [z, c0])?;
+		conn.execute("INSERT INTO tiles VALUES (?1, ?2, 0, x'00')", [z, c1])?;
+	}
+	let r = std::panic::catch_unwind(|| versatiles_container::MBTilesReader::open_path(&path).map(|_| ()));
+	let _ = std::fs::remove_dir_all(&dir);
+	match r { Ok(_) => Ok(false), Err(_) => Ok(true) }
+}
+
 fn main() -> Result<()> {
 	let args: Vec<String> = std::env::args().skip(1).collect();
 	if args.is_empty() { eprintln!("usage: verif_replay <case> args…"); std::process::exit(2); }
@@ -256,6 +276,7 @@ fn main() -> Result<()> {
 			"versatiles_short_tile_index" => rt.block_on(versatiles_short_tile_index(rest)),
 			"pmtiles_entry_offset_overflow" => rt.block_on(pmtiles_entry_offset_overflow(rest)),
 			"svarint_roundtrip" => svarint_roundtrip(rest),
+			"mbtiles_extreme_values" => mbtiles_extreme_values(rest),
 			"pbf_length_prefix" => pbf_length_prefix(rest),
 			"vector_tile_from_bytes" => vector_tile_from_bytes(rest),
 			"geo_bbox_nonempty" => geo_bbox_nonempty(rest),
